@@ -1,7 +1,7 @@
 HOOK_COMMITS = []
 ENGINES = [
     {"name": "explore", "path": "vf/core/explore.py", "serves_properties": ["C01", "C03", "C08", "C09", "C11", "C13", "C15", "C17"], "kind_free_text": "explicit-state BFS with state merging over the real objects; bounded product enumeration; deviation-bounded stateless DFS"},
-    {"name": "vloop", "path": "vf/core/vloop.py", "serves_properties": ["C10"], "kind_free_text": "virtual asyncio event loop stepped by hand: ready-queue steps, environment events and timers are explicit choices explored exhaustively by explore.dfs"},
+    {"name": "vloop", "path": "vf/core/vloop.py", "serves_properties": ["C10", "C19"], "kind_free_text": "virtual asyncio event loop stepped by hand: ready-queue steps, environment events and timers are explicit choices explored exhaustively by explore.dfs"},
 ]
 NOT_APPLICABLE = {}
 CHECKS = {
@@ -58,5 +58,17 @@ CHECKS = {
         technique="the C01 all-partitions decoder search with a buffer-bound invariant on every transition; exhaustive limit settings around the exact totals x chunkings; helper-level observation from the chunk iterator",
         text="Limits: 14 forms x max_form_parts in {n-1,n,n+1} x max_form_memory_size in {None,total-1,total,total+1} x {whole, byte-wise, every 1-cut} x {sync, async}: 413 iff a limit is exceeded. Buffering: on every transition of the all-partitions search len(buffer) <= chunk + len(CRLF--boundary) + 4 while a part body is read; at helper level every chunk size 1..64 on parts with a leading CR/LF and a 600-byte run, reading the decoder buffer from the helper's frame and requiring a 100-byte field limit to trip within the bound; one scaled instance (256 KiB, thorough 1 MiB).",
         note="helper-level observation depends on the helper's local variable name `parser` (skipped and counted if absent); slack constant 4",
+    ),
+    "C16": dict(
+        engine="explore", level="exploration", design_ref="DESIGN.md §3 C16",
+        technique="bounded exhaustive enumeration of cookie names x values x cookie sets x (clock, time zone) settings, round trip through both gateways",
+        text="Every one-character value (code points 0-255), every 2-character string over 16 special symbols, every 3-character string over 8, every string up to length 4 over an escape-like alphabet, for 3 token names, alone and between neighbours; all ordered pairs/triples of 6 awkward cookies; set_cookie -> emitted Set-Cookie line (must be one ASCII line) -> Cookie header -> request.cookies on WSGI and ASGI. Expires/Max-Age/delete_cookie under a pinned clock at 6 instants around DST changes in 5 process time zones.",
+        note="finite name/value alphabets; the client is assumed to return the first name=value pair verbatim; zoneinfo files of the image",
+    ),
+    "C19": dict(
+        engine="vloop", level="model_checking", design_ref="DESIGN.md §3 C19",
+        technique="exhaustive event enumeration against a spec-derived EventSource parser; every producer/ping-timer interleaving of the ASGI event-stream response on a virtual asyncio loop",
+        text="Every data string up to length 3 (thorough 4) over 13 line-ish characters x every subset of {event, id, retry} x {utf-8, latin-1} serialised by the library and parsed back by an event-stream parser written from the WHATWG specification; sequences of <=3 events through both SendEventResponse classes, on ASGI under every schedule of producer steps vs <=2 ping timers: one block per event, same fields, data split at CR/LF/CRLF only, pings invisible, order kept.",
+        note="WSGI ping interleavings belong to the thread engine (C06); trailing-terminator ambiguity accepted both ways; empty events excluded",
     ),
 }
